@@ -57,6 +57,10 @@ class Quantity:
     def to(self, unit, equivalencies=None):
         unit = u.Unit(unit)
         if not self.unit.is_equivalent(unit):
+            if equivalencies and self.unit.is_equivalent(unit, equivalencies=equivalencies):
+                # converted only by virtue of the equivalencies handed over (e.g. a wavelength taken as a frequency): astropy
+                # accepts it, the conversion is not a constant factor -> an uninterpreted value, and no error is raised
+                return Quantity(core._opaque(f"equiv_{self.unit}_to_{unit}".replace(" ", ""), self.value), unit)
             raise u.UnitConversionError(f"'{self.unit}' and '{unit}' are not convertible")
         try:
             f = self.unit.to(unit)  # astropy's own factor (a double)
